@@ -72,7 +72,7 @@ Proof.
   intros. unfold Gen.AtomicBitmap.range_bits, set_reset_prog.
   destruct (N.eqb_spec len 0) as [H0|H0].
   - eexists; split; reflexivity.
-  - rewrite psub_Val by lia. cbn [bind]. eexists; split; reflexivity.
+  - dassert_discharge. cbn [bind]. rewrite psub_Val by lia. cbn [bind]. eexists; split; reflexivity.
 Qed.
 
 (* ONE iteration of the bit loop for n <= last_bit *)
